@@ -1079,6 +1079,9 @@ func (l *LineWrapper) wrapNextLine(config lineConfig) (done bool) {
 		case truncated:
 			// The candidateRun does not fit.
 			if !l.scratch.hasBest() {
+				// Drop the runs accumulated while reaching the option: they end on a run
+				// boundary, which is not a valid break, and were not measured against the truncator.
+				l.restore()
 				l.scratch.markCandidateBest()
 			}
 			if l.config.BreakPolicy == Never {
@@ -1130,6 +1133,7 @@ func (l *LineWrapper) wrapNextLine(config lineConfig) (done bool) {
 				return true
 			case truncated:
 				if !l.scratch.hasBest() {
+					l.restore()
 					l.scratch.markCandidateBest()
 				}
 				return true
